@@ -11,11 +11,12 @@ import (
 func init() {
 	register(&propCheck{
 		id:   "C06",
-		pkgs: []string{"internal/core/adt", "internal", "cue/literal"},
+		pkgs: []string{"internal/core/adt", "internal/core/compile", "internal", "cue/literal"},
 		run:  checkC06,
 		about: "C06 (arithmetic exact), narrow: decides (a) the decimal context of each arithmetic entry point, by constant-folding the precision of the apd context whose method is invoked: OpContext.Add/Sub/Mul must use an exact context (apd precision 0 = no rounding) whenever both operands are integers, the integer path of number literals with a multiplier must be exact, and Quo/Pow must use precision >= 34; " +
 			"(b) conditions are not dropped: numOp returns a number only if the operation reported no error and no division by zero, intDivOp tests for a zero divisor before dividing, the literal's integral test consults the Inexact condition; (c) Quo always yields a float kind. " +
-			"It does not decide rounding correctness of / and the math builtins, the total order of comparisons, Euclidean identities, multiplier values, nor the print/parse round trip (value-level).",
+			"(d) comparisons: cmpTonode maps the three-way result to each ordering operator's truth table (evaluated for r = -1, 0, +1), every comparison site of BinOp passes its operator and Compare(left, right) in that order, and the order of numbers is (*apd.Decimal).Cmp alone (or a pure delegate); (e) div/mod/quo/rem agree across compile -> adt -> math/big (Euclidean pair Div/Mod, truncated pair Quo/Rem), operands in order. " +
+			"It does not decide rounding correctness of / and the math builtins, the Euclidean identities themselves (math/big trusted), multiplier values, nor the print/parse round trip (value-level).",
 		trust: []string{"cockroachdb/apd: precision 0 disables rounding for Add/Sub/Mul; apd.BaseContext has precision 0"},
 	})
 }
@@ -126,6 +127,8 @@ func (c *Ctx) ctxPrecisionIn(f *Fn, info *types.Info, e ast.Expr, depth int) int
 }
 
 func checkC06(c *Ctx) {
+	checkC06Compare(c)
+	checkC06DivRegistry(c)
 	// (a) per-operation context
 	for _, op := range []string{"Add", "Sub", "Mul"} {
 		f := c.fn(adtP, "(*OpContext)."+op)
